@@ -358,6 +358,13 @@ func (s *session) ciscoClass(line string) string {
 	return "config-change"
 }
 
+func hostReply(sp *sim.Spec) string {
+	if sp.HostReply != "" {
+		return strings.TrimSuffix(sp.HostReply, "<empty>")
+	}
+	return sp.Hostname
+}
+
 const bel = "\x07"
 
 func bannerText(kind string, hh ...bool) string {
@@ -623,7 +630,7 @@ func (s *session) ciscoLoop() {
 				}
 			case line == "show hostname":
 				s.event(line, class, "accepted")
-				s.ciscoReply(line, sp.Hostname+"\r\n")
+				s.ciscoReply(line, hostReply(sp)+"\r\n")
 			case line == "write term" || line == "sh run":
 				s.event(line, class, "accepted")
 				cfg := crlf(s.dev.Dump())
@@ -809,7 +816,7 @@ func (s *session) linuxLoop() {
 			reply(line, "x86_64\r\n")
 		case line == "hostname -s":
 			s.event(line, class, "accepted")
-			reply(line, sp.Hostname+"\r\n")
+			reply(line, hostReply(sp)+"\r\n")
 		case grepRE.MatchString(line):
 			s.event(line, class, "accepted")
 			m := grepRE.FindStringSubmatch(line)
